@@ -1,25 +1,41 @@
 (* C20, translator tie (MockDisplay pixel access): MockDisplay::get_pixel / set_pixel_unchecked / set_pixel /
    set_allow_out_of_bounds_drawing / set_allow_overdraw and SIZE (src/mock_display/mod.rs), regenerated from the source on
    every run by translate/r2c (coq/Gen/SrcMock.v).  The pixel array `[Option<C>; SIZE * SIZE]` is a list of options
-   (`self.pixels[i]`: Casts.slice_nth None; `self.pixels[i] = v`: Casts.slice_set); the model keeps the cells in a finite map
+   (`self.pixels[i]`: Casts.slice_get, None out of range; `self.pixels[i] = v`: Casts.slice_set under the range test); the model keeps the cells in a finite map
    and makes panics explicit (result).  drepr s d: the generated display s represents the model display d (4096 cells with
-   the same contents, the same flags).  On representing displays get_pixel agrees; whenever the model's set_pixel_unchecked /
-   set_pixel does not panic, the generated one yields a representing display (`assert!` only panics and is not translated;
-   Rust's index panic is the model's Panic PIndex).  Statements only (proofs: Proofs/SrcMock.v). *)
+   the same contents, the same flags).  The generated get_pixel / set_pixel_unchecked / set_pixel are option-valued: None is a
+   Rust panic (the `assert!` of set_pixel, an array index out of range).  On representing displays they panic exactly when the
+   model does (Panic k) and otherwise yield equal values / representing displays.  Statements only (proofs: Proofs/SrcMock.v). *)
 From EG Require Import Base.Prelude Base.Casts Model.Geometry Gen.MockConsts Model.Mockdisplay Gen.SrcGeometry Gen.SrcMock Proofs.SrcMock.
 
 Theorem C20_src_SIZE_is_model : src_SIZE = SIZE.
 Proof. exact src_SIZE_eq. Qed.
-Theorem C20_src_get_pixel_is_model : forall s d p, drepr s d -> Ok (src_MockDisplay_get_pixel s p) = get_pixel d p.
+(* res_rel R o r (Proofs/SrcMock.v): o = None and r = Panic k, or o = Some a, r = Ok b and R a b *)
+Theorem C20_src_get_pixel_is_model : forall s d p, drepr s d ->
+  res_rel eq (src_MockDisplay_get_pixel s p) (get_pixel d p).
 Proof. exact src_mock_get_pixel_eq. Qed.
-Theorem C20_src_set_pixel_unchecked_is_model : forall s d p v d', drepr s d ->
+Theorem C20_src_set_pixel_unchecked_is_model : forall s d p v, drepr s d ->
+  i32_min <= px p + py p * SIZE <= i32_max ->
+  res_rel drepr (src_MockDisplay_set_pixel_unchecked s p v) (set_pixel_unchecked d p v).
+Proof. exact src_mock_set_pixel_unchecked_rel. Qed.
+Theorem C20_src_set_pixel_is_model : forall s d p v, drepr s d ->
   i32_min <= px p <= i32_max -> i32_min <= py p <= i32_max ->
-  set_pixel_unchecked d p v = Ok d' -> drepr (src_MockDisplay_set_pixel_unchecked s p v) d'.
-Proof. exact src_mock_set_pixel_unchecked_ok. Qed.
-Theorem C20_src_set_pixel_is_model : forall s d p v d', drepr s d ->
+  res_rel drepr (src_MockDisplay_set_pixel s p v) (set_pixel d p v).
+Proof. exact src_mock_set_pixel_rel. Qed.
+(* the two readings of res_rel, spelled out for set_pixel: the source panics exactly when the model does, and a model value
+   is represented by the source value *)
+Theorem C20_src_set_pixel_panics_iff_model : forall s d p v, drepr s d ->
   i32_min <= px p <= i32_max -> i32_min <= py p <= i32_max ->
-  set_pixel d p v = Ok d' -> drepr (src_MockDisplay_set_pixel s p v) d'.
-Proof. exact src_mock_set_pixel_ok. Qed.
+  ((exists k, set_pixel d p v = Panic k) <-> src_MockDisplay_set_pixel s p v = None).
+Proof. intros s d p v H Hx Hy. exact (res_rel_panic drepr _ _ (src_mock_set_pixel_rel s d p v H Hx Hy)). Qed.
+Theorem C20_src_set_pixel_ok_is_model : forall s d p v d', drepr s d ->
+  i32_min <= px p <= i32_max -> i32_min <= py p <= i32_max ->
+  set_pixel d p v = Ok d' -> exists s', src_MockDisplay_set_pixel s p v = Some s' /\ drepr s' d'.
+Proof. intros s d p v d' H Hx Hy. exact (res_rel_ok drepr _ _ d' (src_mock_set_pixel_rel s d p v H Hx Hy)). Qed.
+Theorem C20_src_set_pixel_unchecked_panics_iff_model : forall s d p v, drepr s d ->
+  i32_min <= px p + py p * SIZE <= i32_max ->
+  ((exists k, set_pixel_unchecked d p v = Panic k) <-> src_MockDisplay_set_pixel_unchecked s p v = None).
+Proof. intros s d p v H Hi. exact (res_rel_panic drepr _ _ (src_mock_set_pixel_unchecked_rel s d p v H Hi)). Qed.
 Theorem C20_src_set_allow_oob_is_model : forall s d b, drepr s d -> drepr (src_MockDisplay_set_allow_out_of_bounds_drawing s b) (set_allow_oob d b).
 Proof. exact src_mock_set_allow_oob_eq. Qed.
 Theorem C20_src_set_allow_overdraw_is_model : forall s d b, drepr s d -> drepr (src_MockDisplay_set_allow_overdraw s b) (set_allow_overdraw d b).
@@ -27,7 +43,14 @@ Proof. exact src_mock_set_allow_overdraw_eq. Qed.
 
 (* the representation relation is inhabited: the empty display *)
 Example C20_src_nonvacuous :
-  drepr (Build_MockDisplay (repeat None 4096) false false) new_display /\
-  src_MockDisplay_get_pixel (src_MockDisplay_set_pixel (Build_MockDisplay (repeat None 4096) false false) (P 3 2) (Some 7)) (P 3 2) = Some 7 /\
-  src_MockDisplay_get_pixel (src_MockDisplay_set_pixel (Build_MockDisplay (repeat None 4096) false false) (P 3 2) (Some 7)) (P 2 3) = None.
-Proof. split; [exact drepr_new | split; vm_compute; reflexivity]. Qed.
+  let s0 := Build_MockDisplay (repeat None 4096) false false in
+  drepr s0 new_display /\
+  (exists s1, src_MockDisplay_set_pixel s0 (P 3 2) (Some 7) = Some s1 /\
+     src_MockDisplay_get_pixel s1 (P 3 2) = Some (Some 7) /\ src_MockDisplay_get_pixel s1 (P 2 3) = Some None) /\
+  src_MockDisplay_set_pixel s0 (P 64 2) (Some 7) = None /\ set_pixel new_display (P 64 2) (Some 7) = Panic PSetPixel /\
+  src_MockDisplay_set_pixel_unchecked s0 (P 0 64) (Some 7) = None /\ src_MockDisplay_set_pixel_unchecked s0 (P (-1) 0) (Some 7) = None /\
+  src_MockDisplay_get_pixel (Build_MockDisplay (repeat None 100) false false) (P 3 2) = None.
+Proof.
+  split; [exact drepr_new|]. split; [eexists; split; [vm_compute; reflexivity|split; vm_compute; reflexivity]|].
+  repeat split; vm_compute; reflexivity.
+Qed.
